@@ -448,7 +448,33 @@ fn judge_case(c: &K) -> Verdict {
                 }
             }
         }
-        K::LocalKeys(variant) if *variant >= 5 => {
+        K::LocalKeys(variant) if *variant >= 15 => {
+            // index 0 (no key has this code) is a no-op on every layer, whatever a deflayermap
+            // wildcard for unmapped keys says: other code relies on it (chords v2 press and
+            // release their actions at coordinate 0)
+            v.classes.push("index-zero-noop");
+            let wild = if *variant % 2 == 1 { "___" } else { "__" };
+            let cfg = format!("(defcfg log-layer-changes no process-unmapped-keys yes)\n(defsrc a b)\n(deflayer l0 a (layer-while-held l1))\n(deflayermap (l1) a b {wild} 2)\n(deflayermap (l2) {wild} 3)\n");
+            let files: rustc_hash::FxHashMap<String, String> = Default::default();
+            let parsed = match kanata_parser::cfg::new_from_str(&cfg, files) {
+                Ok(p) => p,
+                Err(e) => return Verdict::failed("harness:config-rejected", format!("{cfg}{e:?}")),
+            };
+            let layout = parsed.layout.b();
+            for (li, layer) in layout.layers.iter().enumerate() {
+                if !matches!(layer[0][0], kanata_keyberon::action::Action::NoOp) {
+                    return Verdict::failed("identity:index-zero-not-noop", format!("{cfg}layer {li}: the action at index 0 is {:?}", layer[0][0]));
+                }
+            }
+            // the wildcard did reach the other unmapped codes
+            let c_col = u16::from(kanata_state_machine::str_to_oscode("c").expect("c")) as usize;
+            if matches!(layout.layers[1][0][c_col], kanata_keyberon::action::Action::Trans | kanata_keyberon::action::Action::NoOp) {
+                return Verdict::failed("harness:wildcard-without-effect", format!("{cfg}layer l1, key c: {:?}", layout.layers[1][0][c_col]));
+            }
+            v.nontrivial = true;
+            return v;
+        }
+        K::LocalKeys(variant) if (5..10).contains(variant) => {
             // mouse buttons: the button an action names is written to the OS (on the real
             // output) as the code the same name has in defsrc
             v.classes.push("mouse-button-code");
@@ -485,44 +511,12 @@ fn judge_case(c: &K) -> Verdict {
         K::LocalKeys(variant) => {
             v.classes.push("localkeys");
             // names that deflocalkeys may redefine, and a brand-new name
-            let redefinable = [";", "[", "+", "'", "="];
-            let name = redefinable[*variant as usize % redefinable.len()];
-            let files = || -> rustc_hash::FxHashMap<String, String> { Default::default() };
-            let plain = format!("(defcfg log-layer-changes no)\n(defsrc {name} a)\n(deflayer l {name} a)\n");
-            let before = match kanata_parser::cfg::new_from_str(&plain, files()) {
-                Ok(c) => c.mapped_keys.iter().map(|o| o.as_u16()).collect::<BTreeSet<u16>>(),
-                Err(e) => return Verdict::failed("harness:localkeys-config-rejected", format!("{plain}\n{e:?}")),
-            };
-            let with_local = format!("(deflocalkeys-linux {name} 300 lk 301)\n(defcfg log-layer-changes no)\n(defsrc {name} lk)\n(deflayer l {name} lk)\n");
-            match kanata_parser::cfg::new_from_str(&with_local, files()) {
-                Ok(c) => {
-                    let mk: BTreeSet<u16> = c.mapped_keys.iter().map(|o| o.as_u16()).collect();
-                    if mk != [300u16, 301].into_iter().collect() {
-                        return Verdict::failed("identity:deflocalkeys", format!("{with_local}mapped_keys = {mk:?}, expected the redefined codes 300 and 301"));
-                    }
-                }
-                Err(e) => return Verdict::failed("harness:localkeys-config-rejected", format!("{with_local}\n{e:?}")),
+            // (10..: names that are hard-coded key names too - the custom meaning wins)
+            let redefinable = [";", "[", "+", "'", "=", "z", "q", "1", "ret", "lsft"];
+            let name = redefinable[(if *variant < 5 { *variant as usize } else { *variant as usize - 5 }) % redefinable.len()];
+            if *variant >= 10 {
+                v.classes.push("localkeys-shadowing-a-standard-name");
             }
-            // a later configuration without deflocalkeys sees the standard meaning again
-            match kanata_parser::cfg::new_from_str(&plain, files()) {
-                Ok(c) => {
-                    let after: BTreeSet<u16> = c.mapped_keys.iter().map(|o| o.as_u16()).collect();
-                    if after != before {
-                        return Verdict::failed("identity:deflocalkeys-leaks-into-next-config", format!("name {name:?}: mapped keys {before:?} before, {after:?} after another configuration had redefined it with deflocalkeys"));
-                    }
-                }
-                Err(e) => return Verdict::failed("identity:deflocalkeys-leaks-into-next-config", format!("{plain}\nrejected after another configuration used deflocalkeys: {e:?}")),
-            }
-            let uses_lk = "(defcfg log-layer-changes no)\n(defsrc lk)\n(deflayer l lk)\n";
-            if kanata_parser::cfg::new_from_str(uses_lk, files()).is_ok() {
-                return Verdict::failed("identity:deflocalkeys-leaks-into-next-config", "the name `lk`, defined by an earlier configuration's deflocalkeys, is still accepted by a configuration that does not define it".to_string());
-            }
-        }
-        K::LocalKeys(variant) => {
-            v.classes.push("localkeys");
-            // names that deflocalkeys may redefine, and a brand-new name
-            let redefinable = [";", "[", "+", "'", "="];
-            let name = redefinable[*variant as usize % redefinable.len()];
             let files = || -> rustc_hash::FxHashMap<String, String> { Default::default() };
             let plain = format!("(defcfg log-layer-changes no)\n(defsrc {name} a)\n(deflayer l {name} a)\n");
             let before = match kanata_parser::cfg::new_from_str(&plain, files()) {
@@ -621,7 +615,7 @@ impl TypedProp for C11 {
         extra.insert("exhaustive_parts".into(), json!("all 65536 u16 values (conversion round trips, enum discriminant sets read from the tree), every valid code 0..=767 x 3 pipeline configs, every accepted key name x 8 contexts"));
         PropInfo {
             level: "exploration",
-            rule: "enumerated parts (exhaustive): every u16 value for the OsCode/KeyCode conversions (from_u16 domain = declared discriminants, as_u16/transmute round trips, the two enums' discriminant sets coincide); every valid code through three pipeline configs (mapped to itself, transparent, unmapped with process-unmapped-keys) must come out as the same code on press and release (reserved 0x2a4..=0x2ad never); every key name accepted by str_to_oscode must denote the same code as a layer action, macro item, fork trigger, switch key, override input, chords-v2 participant, defseq key and defsrc entry. every mouse-button name as an action must be written to the OS as the code the name denotes in defsrc (OsCode::from(Btn), the conversion the real output uses). Random part: mapped-key set of configs with random defsrc subsets, deflayermap inputs, process-unmapped-keys yes/no/(all-except ..) equals the set computed by the harness. Each code / name / config is its own non-trivial case.",
+            rule: "enumerated parts (exhaustive): every u16 value for the OsCode/KeyCode conversions (from_u16 domain = declared discriminants, as_u16/transmute round trips, the two enums' discriminant sets coincide); every valid code through three pipeline configs (mapped to itself, transparent, unmapped with process-unmapped-keys) must come out as the same code on press and release (reserved 0x2a4..=0x2ad never); every key name accepted by str_to_oscode must denote the same code as a layer action, macro item, fork trigger, switch key, override input, chords-v2 participant, defseq key and defsrc entry. deflocalkeys names that shadow standard names must win everywhere; index 0 must be a no-op on every layer under deflayermap wildcards for unmapped keys; every mouse-button name as an action must be written to the OS as the code the name denotes in defsrc (OsCode::from(Btn), the conversion the real output uses). Random part: mapped-key set of configs with random defsrc subsets, deflayermap inputs, process-unmapped-keys yes/no/(all-except ..) equals the set computed by the harness. Each code / name / config is its own non-trivial case.",
             assumptions: vec!["Linux key tables only".into(), "names / enum bodies are read from the tree under test".into()],
             extra,
         }
@@ -637,7 +631,7 @@ impl TypedProp for C11 {
             n_cases: n,
             exhaustive: false,
             distinct_by_construction: false,
-            required_classes: vec!["code", "pipeline", "name", "localkeys", "mouse-button-code", "mapped-keys"],
+            required_classes: vec!["code", "pipeline", "name", "localkeys", "localkeys-shadowing-a-standard-name", "index-zero-noop", "mouse-button-code", "mapped-keys"],
             hang_secs: 60,
         }
     }
@@ -656,8 +650,9 @@ impl TypedProp for C11 {
             return Gen::Fixed(K::Name(n.clone(), (idx % N_CTX) as u8));
         }
         let idx = idx - t.names.len() as u64 * N_CTX;
-        if idx < 10 {
-            // (5..10: the five mouse buttons)
+        if idx < 17 {
+            // (15, 16: index 0 stays a no-op under deflayermap wildcards)
+            // (5..10: the five mouse buttons; 10..15: deflocalkeys names that shadow standard names)
             return Gen::Fixed(K::LocalKeys(idx as u8));
         }
         Gen::Strat(0)
